@@ -38,3 +38,55 @@ Example C08_code_example :
   g_move_random_points (fun _ _ => [5;0]%Z) (rp_of 4 2 labels) 1 3 = Ret [0;3;1;2;1;1;0;1;2;3;1]%Z.
 Proof. vm_compute. split; reflexivity. Qed.
 Print Assumptions C08_code_example.
+
+(* ---- REPOPULATION AS TRANSLATED in skeleton mode (Gen/G_cm_repopulate.v; facts: Proofs/GenEquivPH.v): otherwise it works on a shallow
+   copy whose clusters are deep copies, ranks the donors ONCE on that copy, and then for each under-populated cluster in order
+   makes exactly the three calls  _find_point_donor(copy, remaining donors) ; _move_random_points(copy, that donor, the cluster) ;
+   copy.point_labels = <the moved labelling>  - the remaining-donor list and the copy being threaded from one refill to the next ---- *)
+From Ticc Require Import Gen.PySkel Gen.G_cm_repopulate Proofs.GenEquivPH.
+Section SkelPH08.
+  Local Open Scope string_scope.
+  Variable V : Type.
+  Variable vnone : V.
+  Variable vint : Z -> V.
+  Variable as_int : V -> option Z.
+  Variable veq : V -> V -> bool.
+  Variable getattr : V -> string -> V.
+  Variable truthy : V -> bool.
+  Variable is_none : V -> bool.
+  Variables vtrue vfalse : V.
+  Variable as_list : V -> list V.
+  Variable vglobal : string -> V.
+  Variable oracle : list (event V) -> string -> list V -> res V.
+  Let scan_events := GenEquivPH.scan_events V as_int getattr.
+  Let sized := GenEquivPH.sized V as_int getattr.
+  Let move_events := GenEquivPH.move_events V getattr.
+  Let last_state := GenEquivPH.last_state V.
+  Let move_answers := GenEquivPH.move_answers V getattr oracle.
+  Theorem C08_code_repopulate_moves (model r : V) (log log' : list (event V)) :
+    g_repopulate_empty_clusters V as_int getattr as_list oracle model log = (Ret r, log') ->
+    exists s en lenv n,
+      let base := (log ++ [Ev "set" []; Ev "enumerate" [getattr model "clusters"]]
+                       ++ scan_events s (as_list en) ++ [Ev "len" [s]])%list in
+      oracle log "set" [] = Ret s /\
+      oracle (log ++ [Ev "set" []])%list "enumerate" [getattr model "clusters"] = Ret en /\
+      Forall sized (as_list en) /\
+      oracle (log ++ [Ev "set" []; Ev "enumerate" [getattr model "clusters"]] ++ scan_events s (as_list en))%list
+             "len" [s] = Ret lenv /\
+      as_int lenv = Some n /\
+      (n <> 0%Z ->
+       exists m0 cl m1 donors ans,
+        length ans = length (as_list s) /\
+        log' = (base ++ [Ev "method:shallow_copy" [model]; Ev f_deep [model]; Ev "setattr:clusters" [m0; cl];
+                         Ev "_find_ranked_donor_cluster_ids" [m1]]
+                     ++ move_events donors m1 (as_list s) ans)%list /\
+        oracle base "method:shallow_copy" [model] = Ret m0 /\
+        oracle (base ++ [Ev "method:shallow_copy" [model]; Ev f_deep [model]])%list "setattr:clusters" [m0; cl] = Ret m1 /\
+        oracle (base ++ [Ev "method:shallow_copy" [model]; Ev f_deep [model]; Ev "setattr:clusters" [m0; cl]])%list
+               "_find_ranked_donor_cluster_ids" [m1] = Ret donors /\
+        move_answers (base ++ [Ev "method:shallow_copy" [model]; Ev f_deep [model]; Ev "setattr:clusters" [m0; cl];
+                               Ev "_find_ranked_donor_cluster_ids" [m1]])%list donors m1 (as_list s) ans /\
+        r = last_state m1 ans).
+  Proof. intros; eapply repopulate_moves; eassumption. Qed.
+End SkelPH08.
+Print Assumptions C08_code_repopulate_moves.
